@@ -27,7 +27,7 @@ components; parent links only between known pairs; the client ignores a componen
 duplicate-spawn guard; the asset classes are gated by their switches -/
 theorem C03_code_tie :
     Generated.snapRequestQueuesClosure = true ∧ Generated.snapSentInOrderThenFinished = true ∧
-    Generated.snapBuildOrder = true ∧ Generated.snapSpawnBeforeComponents = true ∧
+    Generated.snapBuildOrder = true ∧ Generated.snapSpawnBeforeComponents = true ∧ Generated.snapEntitiesFirst = true ∧
     Generated.snapParentsOfKnownPairs = true ∧ Generated.snapClientIgnoresUnknownEntity = true ∧
     Generated.snapAssetClassesGated = true ∧ Generated.entSpawnHandlers = true ∧
     Generated.connVerifyChecksTransport = true ∧ Generated.recvHandlesEveryMessage = true := by
@@ -135,6 +135,13 @@ theorem C03_snapshot_rebuilds_world (w : WorldSnap.World) (hw : WorldSnap.WF w) 
 theorem C03_snapshot_is_scoped (w : WorldSnap.World) (hw : WorldSnap.WF w) :
     WorldSnap.Scoped [] (WorldSnap.snapshot w) :=
   WorldSnap.snapshot_scoped w hw
+
+/-- every `EntitySpawn` of the snapshot precedes every other message (repair of D21): when the joiner handles any component
+or parent pair it knows every entity of the host, however the channel cuts the snapshot into frames -/
+theorem C03_all_known_when_handled (w : WorldSnap.World) (hw : WorldSnap.WF w) (pre post : List WorldSnap.Msg) (m : WorldSnap.Msg)
+    (h : WorldSnap.snapshot w = pre ++ m :: post) (hm : WorldSnap.isSpawn m = false) :
+    (WorldSnap.applyAll {} pre).ents = WorldSnap.uuids w :=
+  WorldSnap.all_known_when_handled w hw pre post m h hm
 
 /-- the same for a **returning client** that still holds a world: it ends knowing every uuid of the host and holding every
 value and link the host listed; spawns of uuids it knows are ignored (no second replica). What it held and the host does
